@@ -227,3 +227,32 @@ func c03WireClose(c *Ctx) {
 		}
 	}
 }
+
+// c03 kind xfer (refused chunks answered out of order): "every client operation returns the result the server produced for that very
+// request, no matter in which order the server answers". One WriteAt / Write of seven chunks under UseConcurrentWrites, two or three
+// chunks refused with different status codes, the scripted peer answering the outstanding requests in permuted order: the call's
+// count and error are those of the lowest refused chunk - the answer to ITS request -, whichever refusal arrived first
+// (model: the extracted transfer functions; oracle: the intact-prefix oracle).
+func c03RefusedOutOfOrder(c *Ctx) {
+	reps := 30
+	if c.Thorough() {
+		reps = 600
+	}
+	codes := []uint32{4, 2, 3, 9}
+	for i := 0; i < reps; i++ {
+		p := 2 + i%3
+		x := &xcase{api: []string{"writeat", "write"}[i%2], p: p, conc: 3 + i%2, cw: true, cr: true, flen: 2 * p, n: 7 * p, off: []int{0, p, 1}[i%3],
+			maxtx: 32768, src: "opaque", backend: "peerperm", regular: true}
+		a := c.Rng.Intn(5)
+		b := a + 1 + c.Rng.Intn(6-a)
+		x.wfail = map[uint64]uint32{uint64(x.off + a*p): codes[i%4], uint64(x.off + b*p): codes[(i+1)%4]}
+		r, n := emitX(c, x)
+		if r == nil {
+			continue
+		}
+		c.NT(n)
+		c.Stat("refused_chunks_answered_out_of_order")
+		ok, why := oraclePartial(x, r)
+		c.Oracle(n, ok, why)
+	}
+}
